@@ -43,6 +43,12 @@ func (bufs Buffers) ReadFrom(r io.Reader) (int64, error) {
 			n, err := r.Read(buf[filled:])
 			total += int64(n)
 			filled += n
+			if err == io.EOF && n > 0 && filled == len(buf) {
+				// An io.Reader may return the final bytes together
+				// with io.EOF. This buffer is complete; if more
+				// buffers remain, the next Read reports the EOF.
+				break
+			}
 			if (n == 0 && err == nil) || err == io.EOF {
 				return total, io.EOF
 			} else if err != nil {
